@@ -35,6 +35,7 @@ EXTRA_TRUSTED = ["C13: nn_state.sample is an arbitrary function of (call number,
 REQUIRED_THEOREMS = ["C13_merge", "C13_merge_empty_left", "C13_merge_empty_right", "C13_stream", "C13_count", "C13_schedule",
                      "C13_system", "C13_system_init", "C13_system_dict", "C13_system_nodup", "C13_statistics_one_pass",
                      "C13_fromSamples", "C13_system_fromSamples", "C13_sample", "C13_system_empty",
+                     "C13_system_keys_of_names", "C13_to01_toPm1", "C13_toPm1_to01",   # extension round 2: names as keys; to_01
                      "C13_mean_stationary",   # extension round X3: expectation of the reported mean under a stationary sampler
                      "C13_gen_update_eq_model", "C13_gen_merge"]   # X6: translated _update_statistics = model
 THEOREMS = {
@@ -515,6 +516,75 @@ def stat_call(F, what, target, st, ns, nc, burn, steps, init, ow):
     return call_with_prefix(target.statistics, st, named, p)
 
 
+def spinconv_case(ctx, case):
+    """`to_01` next to `to_pm1` (observables/utils.py): entry-wise `(x + 1) / 2` and `2 x - 1` (Observables.to01 / toPm1), inverse to each
+    other (C13_to01_toPm1, C13_toPm1_to01).  Not part of C13's text: aux level; the round trip on the conventions' own values is exact."""
+    from qucumber.observables import utils as U
+    xs, dt = case["xs"], case["dtype"]
+    if dt == "i64" and any(x != int(x) for x in xs):
+        dt = "f64"
+    tdt = {"f64": torch.double, "f32": torch.float32, "i64": torch.int64}[dt]
+    t = torch.tensor(xs, dtype=torch.double).to(tdt)
+    if case.get("rows"):
+        t = t.repeat(case["rows"], 1)            # batched form: the conversion is entry-wise
+    ctx.case({"spinconv": xs, "dtype": dt, "rows": case.get("rows")}, nontrivial=len(xs) >= 2, sample={"part": "spinconv", "kind": case["kind"], "dtype": dt})
+    ctx.count(f"spinconv:{case['kind']}:{dt}:{'batched' if case.get('rows') else 'vector'}")
+    before = t.clone()
+    got01 = U.to_01(t)
+    gotpm = U.to_pm1(t)
+    ctx.oracle("to_01 / to_pm1 leave their argument unchanged", bool(torch.equal(t, before)), case, sig="spinconv/no-mutation", theorem="C13_to01_toPm1")
+    flat = [float(v) for v in t.reshape(-1).to(torch.double).tolist()]
+    if case["kind"] in ("pm1", "01"):
+        rt = U.to_pm1(U.to_01(t)) if case["kind"] == "pm1" else U.to_01(U.to_pm1(t))
+        ctx.point("round trip through the other spin convention", "aux", [float(v) for v in rt.reshape(-1).tolist()], flat, case, exact=True,
+                  theorem="C13_to01_toPm1, C13_toPm1_to01", sig="spinconv/round-trip")
+    if ctx.driver is not None:
+        m = ctx.driver.call("c13.spinconv", xs=bits(flat))
+        tol = {} if dt != "f32" else {"rtol": 1e-6, "atol": 1e-6}
+        ctx.point("to_01", "aux", [float(v) for v in got01.reshape(-1).tolist()], unbits(m["to_01"]), case, theorem="C13_to01_toPm1", sig="spinconv/to_01", **tol)
+        ctx.point("to_pm1", "aux", [float(v) for v in gotpm.reshape(-1).tolist()], unbits(m["to_pm1"]), case, theorem="C13_toPm1_to01", sig="spinconv/to_pm1", **tol)
+        ctx.point("model: to_01(to_pm1(x)) == x", "aux", flat, unbits(m["to_01_to_pm1"]), case, theorem="C13_to01_toPm1", sig="spinconv/model-inverse")
+
+
+# names of the observables = the keys of System's dictionaries (extension round 2): the model's names (Observables.Builtin.names,
+# Composite.buildN) computed from the constructor arguments / the expression, never from `.name`
+def name_model_input(spec, o, idx):
+    """-> (leaf descriptions, expression over them) of the observable `o` made from `spec` by make_obs, or None (not denotable: a non-integer
+    scalar)"""
+    from . import c16
+    t = spec["type"]
+    mname = spec.get("name", f"O{idx}")
+    if t == "mock":
+        return [c16.leaf_ident(o, (mname, mname))], ["leaf", 0]
+    if t in ("SigmaX", "SigmaY", "SigmaZ", "NI", "SWAP"):
+        return [c16.leaf_ident(o)], ["leaf", 0]
+    if t == "composite":
+        # -NI(c=1) - 3*SigmaZ() + 1 - 2*mock
+        leaves = [{"builtin": "NI", "periodic": {"form": 0, "value": 0}, "c": 1}, {"builtin": "SigmaZ"},
+                  {"cls": "MockObs", "name": mname + "m", "symbol": mname + "m"}]
+        e = ["sub", ["add", ["sub", ["neg", ["leaf", 0]], ["mul", ["const", "int", 3], ["leaf", 1]]], ["const", "int", 1]],
+             ["mul", ["const", "int", 2], ["leaf", 2]]]
+        return leaves, e
+    if t == "composite3":
+        return [{"builtin": "SigmaX"}], ["add", ["leaf", 0], ["const", "int", 1]]
+    return None
+
+
+def model_names(ctx, case, obs):
+    """the model's name of every observable of the case (None where not denotable)"""
+    out = []
+    for i, (spec, o) in enumerate(zip(case["obs"], obs)):
+        inp = name_model_input(spec, o, i)
+        if inp is None:
+            ctx.count("names: observable not denotable by the name model (non-integer scalar)")
+            out.append(None)
+            continue
+        m = ctx.driver.call("c16.names", leaves=inp[0], expr=inp[1])
+        out.append(m.get("name") if m.get("kind") == "obs" else {"model": m})
+        ctx.count("names: modelled " + spec["type"])
+    return out
+
+
 def stats_case(ctx, case):
     n = case["state"]["n"]
     F = Forms(ctx, case)
@@ -698,6 +768,14 @@ def stats_case(ctx, case):
                     # observable given with that name (C13_system_dict) and with the model's streaming result for that entry
                     ctx.point("dictionary keys (as a set)", "property", sorted(sys_keys), sorted(mres["names"]), case,
                               exact=True, theorem=THEOREMS["keys"], sig="system/keys")
+                    # extension round 2: the keys ARE the observables' names (C13_system_keys_of_names), the names being the model's
+                    # (built-in constants / composite strings, C16_name_of_build); order of first occurrence at aux level
+                    mn = model_names(ctx, case, obs)
+                    ctx.point("names of the observables given to System (the keys of its results)", "property",
+                              [nm for nm, x in zip(names, mn) if x is not None], [x for x in mn if x is not None], case, exact=True,
+                              theorem="C13_system_keys_of_names, C16_name_of_build", sig="system/names")
+                    ctx.point("dictionary keys in order of first occurrence", "aux", sys_keys, mres["names"], case, exact=True,
+                              theorem="C13_system_keys_of_names", sig="system/key-order")
                     # names given several times with DIFFERENT values: which of them survives is not constrained by the property (the merge
                     # itself is the finding reported above) - those entries are not compared with the model
                     # (the entry is compared with the model's one-pass statistics of the observable it was found to hold, and with the
@@ -1040,6 +1118,13 @@ SPECIAL_PAIRS = [(1, 0), (1, 1), (1, 5), (2, 1), (5, 1), (7, 3), (9, 4), (6, 0),
 
 def gen_cases(ctx, thorough):
     rng = ctx.rng
+    # extension round 2: to_01 / to_pm1 (observables/utils.py), the two spin conventions
+    for _ in range(12 if thorough else 4):
+        kind = rng.choice(["pm1", "01", "mixed"])
+        n = rng.randrange(1, 9)
+        xs = ([float(rng.choice([-1, 1])) for _ in range(n)] if kind == "pm1" else [float(rng.randrange(2)) for _ in range(n)] if kind == "01"
+              else [rng.choice([-1.0, 1.0, 0.0, 0.5, -3.0, round(rng.gauss(0, 2), 3)]) for _ in range(n)])
+        yield {"part": "spinconv", "kind": kind, "xs": xs, "dtype": rng.choice(["f64", "f64", "f32", "i64"]), "rows": rng.choice([0, 1, 2])}
     # part A
     for _ in range(60 if thorough else 15):
         N = rng.randrange(2, 10)
@@ -1142,7 +1227,9 @@ def gen_cases(ctx, thorough):
 
 
 def one_case(ctx, case):
-    if case["part"] == "merge":
+    if case["part"] == "spinconv":
+        spinconv_case(ctx, case)
+    elif case["part"] == "merge":
         merge_case(ctx, case)
     elif case["part"] == "formula":
         formula_case(ctx, case)
